@@ -53,6 +53,9 @@ func genWCfg(r *Rng, kinds []string) WCfg {
 			c.Kind, c.Timeout = 1, r.Pick(0, 2_000_000)
 		default:
 			c.Kind, c.MaxB, c.Timeout, c.Fifo = 3, r.Pick(2, 3, 5), r.Pick(10_000_000, 50_000_000), r.Bool(50)
+			if r.Bool(10) {
+				c.RawTO, c.Timeout = r.Pick(-1, -5_000_000), 1_000_000_000 // a negative timeout asks for the queue limiter's default of one second
+			}
 		}
 		if via == "fixedpool" {
 			c.Precise = true
